@@ -3,6 +3,7 @@
 from __future__ import annotations
 
 import ast
+import re
 
 from ..cfg import build_cfg, calls_in, node_calls
 from ..core import Ctx, property_info, rule
@@ -105,7 +106,8 @@ def escape_analysis(ctx: Ctx) -> None:
                 continue
             reported.add(key)
             lf = ctx.repo.functions.get(leaf.func)
-            ctx.ob(f"leak origin: {leaf.func.split(':')[1]} {leaf.what} -> {e}", False, at=lf, construct=f"{e}:{leaf.what}",
+            what_id = re.sub(r"\(.*\)$", "", leaf.what)  # the callee, not how its arguments happen to be spelled
+            ctx.ob(f"leak origin: {leaf.func.split(':')[1]} {what_id} -> {e}", False, at=lf, construct=f"{e}:{what_id}",
                    msg=f"{e} escapes to {q.split(':')[1]} via " + " <- ".join(o.chain()[:6]), witness=o.chain(), rule="C15.R1")
 
 
